@@ -8,6 +8,7 @@ import (
 	"sort"
 	"strconv"
 	"strings"
+	"sync"
 	"time"
 
 	"golang.org/x/tools/go/ssa"
@@ -207,37 +208,60 @@ func runCheck(prop, tier string, overlay map[string][]byte, mutantMode bool) (*C
 	sv.run(solveList)
 	res.SolverMs, res.Queries, res.BySolver, res.Samples = sv.totalMs, sv.queries, sv.bySolver, sv.samples
 
-	// vacuity guards: preconditions satisfiable and a return reachable, per function
+	// vacuity guards (smoke test): "assert false" at a return must NOT be provable, i.e. the solver
+	// must fail to refute the path condition. Contradictory requires / axioms / invariants show up here.
 	if !mutantMode {
+		type vq struct {
+			rep  int
+			text string
+			ans  string
+		}
+		var vqs []*vq
 		for i, rep := range res.Reports {
 			if rep.Unsupported != "" {
 				continue
 			}
-			ok := false
 			for j, pc := range rep.CoverPCs {
-				r := sv.satCheck(fmt.Sprintf("cover_%d_%d", i, j), pc)
-				if r.answer == "sat" {
-					ok = true
+				if j >= 4 {
 					break
 				}
-				if j >= 3 {
-					break
+				q := &Query{Name: "vacuity", Axioms: sv.axioms, Asserts: pc}
+				vqs = append(vqs, &vq{rep: i, text: "; vacuity guard: this must not be unsat\n" + q.SMT(false)})
+			}
+		}
+		var wg sync.WaitGroup
+		sem := make(chan struct{}, 16)
+		for i, v := range vqs {
+			wg.Add(1)
+			sem <- struct{}{}
+			go func(i int, v *vq) {
+				defer wg.Done()
+				defer func() { <-sem }()
+				file := filepath.Join(dir, fmt.Sprintf("vac_%d.smt2", i))
+				os.WriteFile(file, []byte(v.text), 0o644)
+				v.ans = runSolver(solvers[0], file, 3).answer
+			}(i, v)
+		}
+		wg.Wait()
+		for i, rep := range res.Reports {
+			if rep.Unsupported != "" {
+				continue
+			}
+			n, refuted := 0, 0
+			for _, v := range vqs {
+				if v.rep == i {
+					n++
+					if v.ans == "unsat" {
+						refuted++
+					}
 				}
 			}
-			if !ok {
-				// unknown on quantified path conditions is common; fall back to the entry condition
-				r := sv.satCheck(fmt.Sprintf("entry_%d", i), rep.EntryPC)
-				if r.answer == "sat" && rep.Returns > 0 {
-					res.Vacuity = append(res.Vacuity, rep.Key+": precondition satisfiable; no return path confirmed reachable by the solver (unknown)")
-					ok = true
-				}
-			}
-			if !ok {
+			if n == 0 || refuted == n {
 				o := &Obligation{Name: fmt.Sprintf("%s/%s/meta:vacuity", prop, rep.Key), Kind: "meta", Fn: rep.Key, Result: "unsupported",
-					Unsupp: "vacuity guard: precondition unsatisfiable or no return reachable"}
+					Unsupp: fmt.Sprintf("vacuity guard: no return path is reachable (%d paths, %d refuted): contradictory precondition, axiom or invariant", n, refuted)}
 				solveList = append(solveList, o)
 			} else {
-				res.Vacuity = append(res.Vacuity, rep.Key+": requires satisfiable and a return is reachable")
+				res.Vacuity = append(res.Vacuity, fmt.Sprintf("%s: %d of %d sampled return paths not refutable (assert-false canary fails as it must)", rep.Key, n-refuted, n))
 			}
 		}
 	}
@@ -405,10 +429,10 @@ func writeReplay(prop string, a *oblAgg, confirmed bool, rlog string, vals map[s
 		Output string   `json:"query_and_solver_output,omitempty"`
 	}
 	out := struct {
-		Property   string `json:"property"`
-		Obligation string `json:"obligation"`
-		Kind       string `json:"kind"`
-		Function   string `json:"function"`
+		Property   string            `json:"property"`
+		Obligation string            `json:"obligation"`
+		Kind       string            `json:"kind"`
+		Function   string            `json:"function"`
 		Confirmed  bool              `json:"replay_confirmed"`
 		Input      map[string]string `json:"replay_input,omitempty"`
 		Log        string            `json:"replay_log,omitempty"`
